@@ -1,6 +1,6 @@
 #!/bin/sh
 # _CoqProject is generated: every .v under coq/ except the extraction files.
 cd "$(dirname "$0")"
-{ echo "-Q . Casbin"; find . -name '*.v' ! -path './extract/*' | sed 's|^\./||' | LC_ALL=C sort; } > _CoqProject.new
+{ echo "-Q . Casbin"; find . -name '*.v' ! -path './extract/*' ! -path './search/*' | sed 's|^\./||' | LC_ALL=C sort; } > _CoqProject.new
 if ! cmp -s _CoqProject.new _CoqProject; then mv _CoqProject.new _CoqProject; else rm _CoqProject.new; fi
 if [ ! -f Makefile ] || [ _CoqProject -nt Makefile ]; then coq_makefile -f _CoqProject -o Makefile >/dev/null; fi
